@@ -31,7 +31,10 @@ ENTRIES = ["parse", "parse-text", "env-parse", "memory-store-ctor", "memory-sour
            # bundles whose members are of both spec versions (legal in 2.1; what v21.Bundle(v20_obj, v21_obj) or save_to_file of a mixed store writes)
            "memory-bundle-add-mixed", "memory-load-from-file-mixed", "memory-store-ctor-bundle-mixed",
            # object files that are bundles (FileSystemSink(bundlify=True)): the identifier under test is the WRAPPER's, the wrapped object is valid
-           "fs-source-get-bundlified", "fs-source-all-versions-bundlified", "fs-source-query-bundlified"]
+           "fs-source-get-bundlified", "fs-source-all-versions-bundlified", "fs-source-query-bundlified",
+           # an already-built object (and a built bundle around it) handed to parse() where dictionaries are usual: the named version must be
+           # honoured exactly as for the dictionary the object serializes to
+           "parse-built", "parse-built-bundle"]
 COMPANION20 = {"type": "identity", "id": "identity--7e4ba2c2-6b3e-4a0f-9a6e-0e2f5f5d0a20", "created": "2020-01-01T00:00:00.000Z", "modified": "2020-01-01T00:00:00.000Z",
                "name": "companion", "identity_class": "individual"}
 COMPANION21 = dict(COMPANION20, id="identity--7e4ba2c2-6b3e-4a0f-9a6e-0e2f5f5d0a21", spec_version="2.1")
@@ -208,7 +211,42 @@ def norm_random_ids(text):
     return json.dumps(walk(j, False), sort_keys=True)
 
 
+def check_built(case):
+    """parse(<built object>, version=v) against parse(<the dictionary it serializes to>, version=v)."""
+    import stix2
+    doc, v, entry, allow_custom = mk_doc(case), case["version"], case["entry"], case["allow_custom"]
+    own, exc = core.guarded(stix2.parse, doc, allow_custom=True, version=case["ver"])
+    if exc is not None or isinstance(own, dict):
+        return []
+    subject = own
+    if entry == "parse-built-bundle":
+        B = stix2.v21.Bundle if case["ver"] == "2.1" else stix2.v20.Bundle
+        subject, exc = core.guarded(B, objects=[own], id="bundle--3f2504e0-4f89-41d3-9a0c-0305e82c3301", allow_custom=True)
+        if exc is not None:
+            return []
+    as_dict = json.loads(subject.serialize())
+    ref, rexc = reference(as_dict, allow_custom, v)
+    got, gexc = core.guarded(stix2.parse, subject, allow_custom=allow_custom, version=v)
+    desc = "%s(version=%r, allow_custom=%s) on a built %s.%s of %s" % (entry, v, allow_custom, type(subject).__module__, type(subject).__name__, core.short(as_dict, 300))
+    if rexc is not None:
+        if gexc is None:
+            return [("accepted-what-direct-parse-refuses:other:parse-built", "%s accepted; the dictionary form is refused (%s)" % (desc, core.fmt_exc(rexc)))]
+        return []
+    if gexc is not None:
+        return [("refused-what-direct-parse-accepts:parse-built", "%s raised %s; the dictionary form is accepted" % (desc, core.fmt_exc(gexc)))]
+    fails = []
+    if type(got) is not type(ref):
+        fails.append(("class-differs:parse-built", "%s gives %s.%s, the dictionary form gives %s.%s" % (desc, type(got).__module__, type(got).__name__, type(ref).__module__, type(ref).__name__)))
+    elif not isinstance(got, dict) and norm_random_ids(got.serialize()) != norm_random_ids(ref.serialize()):
+        fails.append(("serialization-differs:parse-built", "%s: %s / %s" % (desc, core.short(got.serialize(), 200), core.short(ref.serialize(), 200))))
+    if v is not None and not isinstance(got, dict) and vmod(got) != v:
+        fails.append(("version-not-honoured:parse-built", "%s produced a %s object" % (desc, vmod(got))))
+    return fails
+
+
 def check_case(case):
+    if case["entry"].startswith("parse-built"):
+        return check_built(case)
     doc = mk_doc(case)
     v = case["version"]
     entry = case["entry"]
@@ -309,7 +347,7 @@ def run(ctx):
     def body(args):
         ver, doc, rot = args
         flavours = ["as-is"] + (["no-spec_version"] if ver == "2.1" and "spec_version" in doc else [])
-        k = 0
+        k = combo = 0
         for flavour in flavours:
             d = to_flavour(doc, ver, flavour)
             for id_kind in ID_KINDS:
@@ -317,7 +355,8 @@ def run(ctx):
                     continue
                 for v in VERSIONS:
                     # does the version / strictness matter for this document?
-                    entries = ENTRIES if not ctx.quick else [ENTRIES[(rot + k + j * 3) % len(ENTRIES)] for j in range(9)]
+                    combo += 1      # quick tier: one third of the entry points per combination, the thirds taken in turn
+                    entries = ENTRIES if not ctx.quick else [ENTRIES[(rot + combo * 7 + j * 3) % len(ENTRIES)] for j in range(len(ENTRIES) // 3)]
                     if doc["type"] in M.get("2.1").observables and v is not None:
                         entries = list(entries) + ["parse_observable"]     # observables: the dedicated entry point must agree with parse()
                     for entry in dict.fromkeys(entries):
